@@ -100,7 +100,10 @@ def specs(ctx):
         for W in range(1, B):
             for layout in ("single", "engine0"):
                 out.append(l1.Spec(B=B, workers=W, engine_layout=layout))
+    # an ensemble that lists two engine types (and [0-] on a type of its own)
+    out.append(l1.Spec(B=3, workers=2, engine_layout="multi"))
     if not ctx.quick:
+        out.append(l1.Spec(B=4, workers=3, engine_layout="multi"))
         for W in (1, 2, 3, 4):
             out.append(l1.Spec(B=5, workers=W))
         out.append(l1.Spec(B=4, workers=2, moves=["sh", "sh", "wf", "wf"], alphabet="ha"))
